@@ -257,7 +257,14 @@ async def play(lab: L.Lab, case: dict, port: int, bind_port: int | None) -> dict
         'helper_rx': helper_rx[-200000:],
         'peers': peers,
         'iterations': lab.clock.iterations,
+        'log_evaluated': _log_evaluated(),
     }
+
+
+def _log_evaluated() -> int:
+    from exabgp.logger import log
+
+    return getattr(log, 'evaluated', {'n': 0})['n']
 
 
 def _child(case: dict):
@@ -266,7 +273,7 @@ def _child(case: dict):
     bind_port = L.Lab.free_port() if c.get('listen') else None
     env = dict(case.get('env', {}))
     text = case.get('config_text') or config_text(c, port)
-    lab = L.Lab(text, quantum=case.get('quantum', 0.0002), env=env, bind_port=bind_port)
+    lab = L.Lab(text, quantum=case.get('quantum', 0.0002), env=env, bind_port=bind_port, loud=bool(case.get('loud')))
     lab.listen(port, case.get('policy', 'accept'), case.get('rcvbuf'))
 
     async def scenario(lab):
